@@ -270,10 +270,11 @@ def run_history(cell, seed):
              "ops": [o[0] + (":" + o[1] if o[0] == "predict" else "") for o in hist]}
     # does one cache epoch (a maximal run of operations without train / eval / load, which drop the memoised factors) contain evaluations
     # under two different variational_cholesky_jitter values?  (feature used by a known finding; a probe after a failed op is a default one)
-    epoch, mixed = set(), False
+    epoch, mixed, training = set(), False, False
     for o in hist + [["predict", "default"]]:
-        if o[0] in ("train", "eval", "load"):
-            epoch = set()
+        if o[0] == "train" or o[0] == "load" or (o[0] == "eval" and training):
+            epoch = set()   # (eval() on a model that already is in evaluation mode drops nothing)
+            training = (o[0] == "train") or (training and o[0] == "load")
         elif o[0] in ("predict", "backward", "fantasy", "kl"):
             epoch.add("vjit" if (o[0] == "predict" and o[1] == "vjit") else "std")
             mixed = mixed or len(epoch) == 2
